@@ -26,8 +26,7 @@ def expand_name(line: str, char_pos: int) -> str:
     # WORD will capture substrings in logical and strings
     regexs = [
         FRegex.LOGICAL,
-        FRegex.SQ_STRING,
-        FRegex.DQ_STRING,
+        FRegex.STRING,
         FRegex.WORD,
         FRegex.NUMBER,
     ]
@@ -144,19 +143,14 @@ def strip_strings(in_line: str, maintain_len: bool = False) -> str:
         Stripped string
     """
 
-    def repl_sq(m):
-        return "'{}'".format(" " * (len(m.group()) - 2))
+    def repl(m):
+        quote = m.group()[0]
+        return quote + " " * (len(m.group()) - 2) + quote
 
-    def repl_dq(m):
-        return '"{}"'.format(" " * (len(m.group()) - 2))
-
+    # One pass from the left: the apostrophe in "it's" does not open a literal
     if maintain_len:
-        out_line = FRegex.SQ_STRING.sub(repl_sq, in_line)
-        out_line = FRegex.DQ_STRING.sub(repl_dq, out_line)
-    else:
-        out_line = FRegex.SQ_STRING.sub("", in_line)
-        out_line = FRegex.DQ_STRING.sub("", out_line)
-    return out_line
+        return FRegex.STRING.sub(repl, in_line)
+    return FRegex.STRING.sub("", in_line)
 
 
 def separate_def_list(test_str: str) -> list[str] | None:
